@@ -95,12 +95,26 @@ def big_clock_jobs(k):
     return jobs
 
 
+def s_job_of(case):
+    """The S job a replayed case stands for."""
+    eng = case.get('engine', {}) or {}
+    job = ('S', case['procs'], case['script'], case.get('nested', False),
+           eng.get('initial_global_time', 0))
+    if 'emit_step' in eng or 'global_time_precision' in eng:
+        job += (eng.get('emit_step', 1),)
+    if 'global_time_precision' in eng:
+        job += (eng['global_time_precision'],)
+    return job
+
+
 def run_s(job, acc, monitors=MONITORS):
     _, procs, script, nested = job[:4]
     t0 = job[4] if len(job) > 4 else 0
     eng_cfg = {'initial_global_time': t0} if t0 else {}
-    if len(job) > 5:
+    if len(job) > 5 and job[5] != 1:
         eng_cfg['emit_step'] = job[5]
+    if len(job) > 6:
+        eng_cfg['global_time_precision'] = job[6]
     spec = sched.s_world(procs, script, nested=nested,
                          engine=eng_cfg or None)
     ex = worlds.execute(spec, guard_factory=sched.lasso_guard)
@@ -155,6 +169,10 @@ def v_world(ts_slow, ts_fast, script, order):
                                           '_updater': 'set',
                                           '_emit': True},
                                  'once': {'_default': 0, '_emit': True}},
+                       # a port wired straight to ONE variable: the update
+                       # is the bare value, falsy values included
+                       'switch': {'_default': True, '_updater': 'set',
+                                  '_emit': True},
                        # two variables declared with ONE default object
                        'gauge': {'a': {'_default': shared_default,
                                        '_emit': True},
@@ -172,13 +190,24 @@ def v_world(ts_slow, ts_fast, script, order):
                                  'once': {'$n': {1: {'_value': 100,
                                                      '_updater': 'set'}},
                                           '$else': 1}},
+                       'switch': {'$n': {0: False, 1: 0, 2: '', 3: []},
+                                  '$else': 'on'},
                        'gauge': {'a': {'$lit': arr(5, 5)}}}}
     parts = {'slow': slow, 'fast': fast}
     topo = {'slow': {'pool': ('pool',), 'sink': ('sink',)},
             'fast': {'pool': ('pool',), 'tally': ('tally',),
-                     'gauge': ('gauge',)}}
+                     'gauge': ('gauge',), 'switch': ('tally', 'sw')},
+            'gated': {'tally': ('tally',)}}
+    # a step whose update condition is false in its 2nd and 3rd phase:
+    # it contributes nothing then
+    gated = {'cls': 'S', 'pid': 'gated', 'log_states': False,
+             'cond': {'$n': {1: False, 2: False}, '$else': True},
+             'schema': {'tally': {'steps': {'_default': 0, '_emit': True}}},
+             'update': {'tally': {'steps': 1}}}
     return {'processes': {k: parts[k] for k in order},
-            'topology': {k: topo[k] for k in order},
+            'steps': {'gated': gated}, 'flow': {'gated': []},
+            'topology': dict({k: topo[k] for k in order},
+                             gated=topo['gated']),
             'script': list(script), 'family': 'V',
             'v': (ts_slow, ts_fast, tuple(order))}
 
@@ -216,7 +245,22 @@ def run_v(job, acc):
             cur = (ev[1], start.get(ev[1], ev[4]) + ev[5])
         elif ev[0] == 'return':
             ledger.append((cur[1], ev[5]))
+    # the gated step runs only after its update condition was asked for
+    # this phase and answered True
+    asked = None
+    for ev in ex.trace:
+        if ev[0] == 'cond' and ev[2] == 'gated':
+            asked = ev[6]
+        elif ev[0] == 'invoke' and ev[2] == 'gated':
+            if asked is not True:
+                V('C01.condition', 'step-ran-although-condition-false',
+                  f'V-world {job[1:]}: step gated was invoked at t={ev[4]} '
+                  f'(invocation {ev[3]}) although its update condition '
+                  + ('was not asked' if asked is None else 'was false'))
+                return
+            asked = None
     init = {('pool', 'level'): np.array([1., 2.]),
+            ('tally', 'steps'): 0,
             ('sink', 'total'): np.array([0., 0.]),
             ('tally', 'y'): 10, ('tally', 'z'): 2.5, ('tally', 'once'): 0,
             ('gauge', 'a'): np.array([0., 0.]),
@@ -224,11 +268,14 @@ def run_v(job, acc):
     for (T, data, snap) in worlds.history_rows(ex):
         want = {k: (v.copy() if hasattr(v, 'copy') else v)
                 for k, v in init.items()}
-        flag = True
+        flag, switch = True, True
         for due, upd in ledger:
             if due > T:
                 continue
             for port, body in upd.items():
+                if port == 'switch':
+                    switch = body
+                    continue
                 for var, u in body.items():
                     if (port, var) == ('tally', 'flag'):
                         flag = u['_value']
@@ -250,6 +297,13 @@ def run_v(job, acc):
                   f'plus the updates returned for intervals ending by '
                   f'then is {np.asarray(w).tolist()}')
                 return
+        got_sw = snap.get('tally', {}).get('sw')
+        if got_sw != switch or type(got_sw) is not type(switch):
+            V('C01.row', 'returned-update-form:leaf-port',
+              f'V-world {job[1:]}: at t={T} tally.sw = {got_sw!r}, the '
+              f'last value returned through the leaf port and due by then '
+              f'is {switch!r}')
+            return
         if snap.get('tally', {}).get('flag') is not flag:
             V('C01.row', 'returned-update-form:tally.flag',
               f'V-world {job[1:]}: at t={T} tally.flag = '
@@ -490,11 +544,7 @@ def replay(case):
         run_par(('Par', case['procs'], case['script'][:-1],
                  case['parallel']), acc)
     elif case.get('family') == 'S':
-        job = ('S', case['procs'], case['script'], case.get('nested', False),
-               case.get('engine', {}).get('initial_global_time', 0))
-        if 'emit_step' in case.get('engine', {}):
-            job += (case['engine']['emit_step'],)
-        run_s(job, acc, MONITORS)
+        run_s(s_job_of(case), acc, MONITORS)
     else:
         afamily.replay(case, acc, MONITORS)
     return [v for exs in acc.viol_examples.values() for v in exs]
@@ -502,3 +552,6 @@ def replay(case):
 
 RULE += (
     ' V-family: two processes return updates in every FORM (explicit {_value, _updater} with falsy values, a state array passed through as the update while a faster process changes it, two variables declared with one default array object); every row equals the initial values plus the ledger of updates as they were when returned.')
+
+RULE += (
+    ' V-family: one port is wired straight to a variable and returns bare values (False, 0, "", [] among them); a step whose update condition is false in two phases is invoked only after its condition was asked and answered True.')
